@@ -95,6 +95,7 @@ struct DecState {
     int nfr_start = 0;
     int probe_id = -1;
     int n_queries = 0, n_calls = 0;
+    bool probe_comparable = false;
     bool align_mid_utt = false; // an alignment was requested before the end of the current utterance
     bool sched_noncanonical = false;
     // C16: reference map spelling -> pronunciation for every word touched by an add or lookup, alternates per base
@@ -1618,7 +1619,9 @@ struct Exec {
         out.trace.i64(r.seg_null ? 0 : 1);
         out.trace.i64(std::min<int64_t>(s.n_calls, 6));
         out.trace.i64(std::min<int64_t>(s.n_queries, 3));
-        if (s.probe) {
+        if (s.probe && !quiet && !s.probe_comparable)
+            out.probes["dec.probe_not_comparable"]++;
+        if (s.probe && (quiet || s.probe_comparable)) {
             if (quiet) {
                 probe_record = rj;
             } else {
@@ -1652,6 +1655,8 @@ struct Exec {
                 break;
             }
         std::string a = g[field].dump(), b = w[field].dump();
+        if (getenv("VERIF_FULL_DETAIL"))
+            fprintf(stdout, "FULL-DETAIL got  %s\nFULL-DETAIL want %s\n", a.c_str(), b.c_str());
         if (a.size() > 220) a = a.substr(0, 220) + "...";
         if (b.size() > 220) b = b.substr(0, 220) + "...";
         std::string trig = profile == "C08" ? "history" : (s.sched_noncanonical ? "schedule" : "repeat");
@@ -1762,6 +1767,9 @@ struct Exec {
                 s.align_mid_utt = false;
                 s.probe = op.getb("probe");
                 s.probe_id = (int)op.geti("probe_id", -1);
+                // a probe is comparable with the fresh-decoder reference only from a defined normalisation state: set from
+                // text here, or a whole-utterance (batch) feed below; a minimised plan that lost both is not a probe any more
+                s.probe_comparable = op.has("cmn") && op["cmn"].t == Json::STR;
                 int rv = decoder_start_utt(s.d);
                 out.events.i64(rv);
                 s.in_utt = rv == 0;
@@ -1773,6 +1781,8 @@ struct Exec {
                 bool ns = op.getb("ns"), full = op.getb("full");
                 if (full && s.fed > 0)
                     full = false; // full-utterance processing is only legal as the single call of an utterance
+                if (full)
+                    s.probe_comparable = true;
                 for (int64_t q = 0; q < rep && s.fed < s.clip.size(); ++q)
                     feed_call(s, full ? s.clip.size() : (size_t)std::max<int64_t>(1, op.geti("len", 1)), ns, full, opi);
                 if (rep > 1 || ns || s.f32)
@@ -1821,6 +1831,15 @@ struct Exec {
             const std::string &k = o.gets("op");
             if ((k == "knobs" && (int)i < last_g) || k == "add_word" || (int)i == last_g) {
                 Json o2 = o;
+                o2.set("d", 0);
+                c.push_back(o2);
+            } else if (k == "knobs" && o["set"].has("maxhmmpf")) {
+                // (the search reads beams and penalties when a grammar is loaded, but maxhmmpf from the configuration in
+                // every frame: a change made after the grammar load is in force for the probe)
+                Json o2 = Json::object(), only = Json::object();
+                only.set("maxhmmpf", o["set"]["maxhmmpf"]);
+                o2.set("op", "knobs");
+                o2.set("set", only);
                 o2.set("d", 0);
                 c.push_back(o2);
             }
@@ -1944,6 +1963,8 @@ struct Gen {
             // its default or narrower, performance being outside what simulation decides)
             k.set("wbeam", lat_rate > 0.5 || builds_lattices ? r.pick(std::vector<double> { 7e-29, 7e-29, 1e-15, 1e-8 }) : r.pick(wbeams));
         }
+        if (!align_heavy && r.chance(0.15)) // adaptive beam narrowing: a cap on active HMMs per frame, down to absurdly small
+            k.set("maxhmmpf", (double)r.pick(std::vector<int> { 1, 2, 5, 20, 100, 1000 }));
         if (r.chance(0.3))
             k.set("fsgusefiller", r.chance(0.5));
         if (r.chance(0.3))
